@@ -222,7 +222,9 @@ def arg(draw, t):
         return {"gt": draw(gens.scalars(256))[1]}
     if t.startswith("hash"):
         n = int(t[4:])
-        return draw(gens.ints(8 * n))[1]
+        # boundary values relative to the modulus the bytes are reduced by (exactly r / q, one off, top bits set, >= modulus)
+        from . import c10
+        return draw(c10.hash_int(n, R if n == 32 else F.Q))
     if t == "stream":
         return draw(st.binary(min_size=0, max_size=64))
     if t == "bool":
